@@ -418,8 +418,12 @@ fn vrp_problem_json(case: &Value) -> String {
             "vehicles": [{
                 "typeId": "v", "vehicleIds": ids, "profile": {"matrix": "car"},
                 "costs": {"fixed": 25., "distance": 0.002, "time": 0.005},
-                "shifts": [{"start": {"earliest": "2024-01-01T00:00:00Z", "location": depot},
-                            "end": {"latest": "2024-01-01T23:00:00Z", "location": depot}}],
+                "shifts": [if case["open_end"].as_bool() == Some(true) {
+                               json!({"start": {"earliest": "2024-01-01T00:00:00Z", "location": depot}})
+                           } else {
+                               json!({"start": {"earliest": "2024-01-01T00:00:00Z", "location": depot},
+                                      "end": {"latest": "2024-01-01T23:00:00Z", "location": depot}})
+                           }],
                 "capacity": [case["capacity"]]
             }],
             "profiles": [{"name": "car"}]
@@ -466,10 +470,15 @@ fn run_vrp(case: &Value) -> Value {
     let init = read_init_solution(BufReader::new(buffer.as_slice()), problem.clone(), env.random.clone())
         .unwrap_or_else(|e| panic!("cannot read initial solution: {e}"));
     let init_ctx = InsertionContext::new_from_solution(problem.clone(), (init, None), env.clone());
+    // the feasible solution as it was WRITTEN (not as it was read back): what the user seeded the solve with
+    let first_ctx = InsertionContext::new_from_solution(problem.clone(), (first, None), env.clone());
     let seeded = vrp_solve(&problem, &env, pop, vec![init_ctx.deep_copy()], case["gens"].as_u64().unwrap() as usize);
     let res_ctx = InsertionContext::new_from_solution(problem.clone(), (seeded, None), env.clone());
     json!({
         "cmp": ord_to_i(problem.goal.total_order(&res_ctx, &init_ctx)),
+        "cmp_written": ord_to_i(problem.goal.total_order(&res_ctx, &first_ctx)),
+        "read_vs_written": ord_to_i(problem.goal.total_order(&init_ctx, &first_ctx)),
+        "written_fitness": fitness_bits(&problem, &first_ctx),
         "init_fitness": fitness_bits(&problem, &init_ctx),
         "result_fitness": fitness_bits(&problem, &res_ctx),
         "init_unassigned": init_ctx.solution.unassigned.len(),
@@ -493,7 +502,7 @@ fn vrp_case(rng: &mut Rng) -> Value {
     json!({
         "k": "vrp", "pop": *rng.pick(&["greedy", "rosomaxa", "rosomaxa", "elitism"]), "jobs": jobs,
         "vehicles": rng.range(1, 3), "capacity": rng.range(4, 15), "gens0": *rng.pick(&[1u64, 1, 3, 10]),
-        "gens": *rng.pick(&[0u64, 1, 5, 30, 60]),
+        "gens": *rng.pick(&[0u64, 0, 1, 2, 5, 30, 60]), "open_end": rng.chance(1, 2),
     })
 }
 
